@@ -210,10 +210,10 @@ Definition default_order (ga : gaction) : list nat := seq 0 (List.length (ga_gro
 Definition default_uorder (ga : gaction) : list nat := seq 0 (List.length (ma_univ (ga_action ga))).
 
 Definition m_app (c : rcase) (d : mdomain) (g : result gaction) (q : rprobe) : obs bool :=
-  obs_of_result (do ga <- g; is_applicable d (r_eps c) (Some (r_objs c)) ga (q_state q)).
+  obs_of_result (do ga <- g; is_applicable d (r_eps c) (Some (quantification_objects d (r_objs c))) ga (q_state q)).
 Definition m_succ (c : rcase) (d : mdomain) (g : result gaction) (q : rprobe) : obs state :=
   obs_of_result (do ga <- g;
-                 apply_op d (r_eps c) ga (Some (r_objs c)) false false (default_order ga) (default_uorder ga)
+                 apply_op d (r_eps c) ga (Some (quantification_objects d (r_objs c))) false false (default_order ga) (default_uorder ga)
                           (q_state q)).
 
 Definition sig_eqb (a b : list (string * string)) : bool := list_eqb pair_eqb a b.
@@ -272,7 +272,7 @@ Definition judge (c : rcase) : list verdict :=
       let g := match mr with Some (d, ra) => ground_action d ra (q_args q) | None => Err EOther end in
       let consistent_probe :=
         match sa with
-        | Some (d, a) => consistent (all_groups (r_eps c) (spec_tt d) (r_objs c) a (q_args q) (q_state q))
+        | Some (d, a) => consistent (all_groups (r_eps c) (spec_tt d) (dupdate (sd_consts d) (r_objs c)) a (q_args q) (q_state q))
         | None => true end in
       [ {| v_agree := match mr with
                       | Some (d, _) => obs_eqb Bool.eqb (m_app c d g q) (q_app1 q)
